@@ -525,7 +525,7 @@ def pytest_sessionfinish(session, exitstatus):
 
             unused_externals = _find_external.unused_externals()
 
-            if unused_externals and state().update_flags.trim:
+            if unused_externals and "trim" in state().flags:
                 for name in unused_externals:
                     assert state().storage
                     state().storage.remove(name)
